@@ -34,7 +34,12 @@ Inductive c17case :=
 (* the per-shard limit computed with Go's float32 arithmetic (the expression of SearchPoints) *)
 | CLimit (limit nshards maxlimit observed : N)
 (* one call of cluster.VerifCurateFailedPoints *)
-| CCurate (all success : list uuid) (is_complete : bool) (observed : list (uuid * N)).
+| CCurate (all success : list uuid) (is_complete : bool) (observed : list (uuid * N))
+(* a request of the scaffolding of a history, made on a healthy cluster (every server up), failed: creating the
+   collection, reading its record back through a node, filling or searching it before the recorded part starts,
+   reading a shard on the server that owns it. what: 1 CreateCollection, 2 GetCollection, 3 InsertPoints,
+   4 SearchPoints, 5 DeleteCollection, 6 GetShardsInfo, 7 a shard read on its owner *)
+| CUnexpected (what : N).
 
 (* ------------------------------------------------------------------ helpers *)
 
@@ -258,6 +263,7 @@ Definition verdict (c : c17case) : N :=
       if negb (ids_eqb (map fst observed) (filter (fun id => negb (mem_bytes id success)) all)) then 1102 else
       if negb (forallb (fun p => snd p =? failed_msg is_complete) observed) then 1103 else
       if resp_eqb observed (curate_failed all success is_complete) then 0 else 1204
+  | CUnexpected what => 1120 + what
   end.
 
 Fixpoint bad_from (i : N) (cs : list c17case) : list (N * N) :=
